@@ -364,6 +364,13 @@ class Exec:
             return StrV(v) if isinstance(v, str) else IntV(IntVal(v)) if isinstance(v, int) and not isinstance(v, bool) else PyV(v)
         raise Unsupported(f'name {e.id}@{e.lineno}')
 
+    def ev_Dict(self, e, p):
+        if not e.keys:
+            d = self.empty_dict(e)      # `{}` is `dict()`
+            d.fresh_empty = True
+            return d
+        raise Unsupported(f'Dict@{e.lineno}')
+
     def ev_List(self, e, p):
         if len(e.elts) == 1:
             return IntV(SINGLETON(self.code_of(self.ev(e.elts[0], p), p)))
